@@ -8,7 +8,7 @@ use crate::exec::registry;
 use crate::sched::{GenMode, SchedPlan};
 
 pub const CHUNK: u64 = 250;
-pub const MAX_STEPS: u64 = 2_000_000;
+pub const MAX_STEPS: u64 = 5_000_000;
 
 fn str_hash(s: &str) -> u64 { s.bytes().fold(0xcbf29ce484222325u64, |h, b| (h ^ b as u64).wrapping_mul(0x100000001b3)) }
 
@@ -57,7 +57,7 @@ pub fn gen_input_ops(def: &ProgramDef, rng: &mut Rng) -> (String, Vec<Op>) {
    (gname.to_string(), ops)
 }
 
-fn base_case(check: &str, seed: u64, index: u64, rng: &mut Rng) -> Case {
+pub fn base_case(check: &str, seed: u64, index: u64, rng: &mut Rng) -> Case {
    Case {
       check: check.to_string(),
       seed,
@@ -90,15 +90,154 @@ fn gen_single_run(check: &str, tag: &str, seed: u64, index: u64, serial_baseline
    case
 }
 
-pub fn gen_case(check: &str, thorough: bool, seed: u64, index: u64) -> Case {
-   let _ = thorough;
-   match check {
+fn gen_pools(rng: &mut Rng) -> Vec<usize> {
+   let n = rng.range(1, 3) as usize;
+   (0..n).map(|_| *rng.pick(&[1usize, 2, 3, 4, 8])).collect()
+}
+
+/// a pool reference over `n` custom pools; nested installs only go from a lower to a higher pool
+/// index, so no two actors can wait for each other's pools in a cycle (a worker blocked in a
+/// cross-pool `install` keeps serving its own pool in real rayon; the model does not, see DESIGN 2.1)
+fn gen_pool_ref(rng: &mut Rng, n: usize) -> PoolRef {
+   if n == 0 {
+      return PoolRef::Global;
+   }
+   match rng.below(10) {
+      0..=2 => PoolRef::Global,
+      3..=7 => PoolRef::Pool(rng.below(n as u64) as usize),
+      _ =>
+         if n >= 2 {
+            let i = rng.below(n as u64 - 1) as usize;
+            let j = rng.range(i as u64 + 1, n as u64 - 1) as usize;
+            PoolRef::Nested(i, j)
+         } else {
+            PoolRef::Pool(0)
+         },
+   }
+}
+
+fn facts_of(ops: &[Op]) -> crate::oracle::Facts {
+   ops.iter().filter_map(|o| if let Op::Push { rel, rows } = o { Some((rel.clone(), rows.clone())) } else { None }).collect()
+}
+
+/// facts to push after a run: new input facts, facts for derived relations, already-derived
+/// facts, facts that enable a lower stratum, or nothing
+fn gen_push(def: &ProgramDef, rng: &mut Rng, so_far: &[Op], inputs_only: bool) -> Option<Op> {
+   let candidates: Vec<usize> = def
+      .rels
+      .iter()
+      .enumerate()
+      .filter(|(_, r)| r.io && (r.input || !inputs_only))
+      .map(|(i, _)| i)
+      .collect();
+   if candidates.is_empty() {
+      return None;
+   }
+   let ri = *rng.pick(&candidates);
+   let rel = &def.rels[ri];
+   let known = crate::oracle::reference(def, &facts_of(so_far));
+   let existing: Vec<Row> = known.get(rel.name).cloned().unwrap_or_default();
+   let dom = rng.range(3, 9);
+   let n = match rng.below(6) {
+      0 => 0,
+      1..=3 => rng.range(1, 3),
+      _ => rng.range(3, 8),
+   } as usize;
+   let mut rows: Vec<Row> = vec![];
+   for _ in 0..n {
+      if !rel.lattice && !existing.is_empty() && rng.chance(300) {
+         // a fact the program already holds (input or derived)
+         rows.push(rng.pick(&existing).clone());
+         continue;
+      }
+      let r: Row = rel.col_gen.iter().map(|g| g(rng, dom)).collect();
+      if rel.lattice {
+         // only fresh keys: a second user-pushed row for an existing key is ill-defined even for a fresh run
+         let k = rel.arity - 1;
+         if existing.iter().chain(rows.iter()).any(|e| e[..k] == r[..k]) {
+            continue;
+         }
+      }
+      rows.push(r);
+   }
+   Some(Op::Push { rel: rel.name.to_string(), rows })
+}
+
+/// C13: histories run; run | run; push; run ... over one program value
+fn gen_history(seed: u64, index: u64, thorough: bool) -> Case {
+   let check = "C13";
+   let mut rng = Rng::new(case_seed(seed, check, index));
+   let mut case = base_case(check, seed, index, &mut rng);
+   let progs = programs_tagged("c13");
+   let def = *rng.pick(&progs);
+   let variant = if rng.chance(300) { Variant::Ser } else { pick_par_variant(&mut rng) };
+   if variant.is_parallel() && rng.chance(350) {
+      case.pools = gen_pools(&mut rng);
+   }
+   let np = case.pools.len();
+   let (gname, mut ops) = gen_input_ops(def, &mut rng);
+   ops.insert(0, Op::New { pool: gen_pool_ref(&mut rng, np) });
+   ops.push(Op::Run { pool: gen_pool_ref(&mut rng, np) });
+   let extra = if thorough { rng.range(1, 5) } else { rng.range(1, 3) };
+   let shape = rng.below(4);
+   for i in 0..extra {
+      let want_push = match shape {
+         0 => false,              // run; run; run ...
+         1 => i % 2 == 0,         // run; push; run; run; push ...
+         _ => rng.chance(500),
+      };
+      if want_push {
+         if let Some(p) = gen_push(def, &mut rng, &ops, !def.positive) {
+            ops.push(p);
+         }
+      }
+      ops.push(Op::Run { pool: gen_pool_ref(&mut rng, np) });
+   }
+   case.label = format!("{}/{}/{}", def.name, variant.name(), gname);
+   case.actors.push(Actor { program: def.name.to_string(), variant: variant.name().to_string(), ops });
+   case
+}
+
+/// C20: (a) several instances constructed and run concurrently, (b) pool histories of one instance
+fn gen_tenants(seed: u64, index: u64, _thorough: bool) -> Case {
+   let check = "C20";
+   let mut rng = Rng::new(case_seed(seed, check, index));
+   let mut case = base_case(check, seed, index, &mut rng);
+   let progs = programs_tagged("c20");
+   case.pools = if rng.chance(800) { gen_pools(&mut rng) } else { vec![] };
+   let np = case.pools.len();
+   let n_actors = if rng.chance(350) { 1 } else { rng.range(2, 3) as usize };
+   let mut labels = vec![];
+   for _ in 0..n_actors {
+      let def = *rng.pick(&progs);
+      let variant = if rng.chance(250) { Variant::Ser } else { pick_par_variant(&mut rng) };
+      let (gname, mut ops) = gen_input_ops(def, &mut rng);
+      ops.insert(0, Op::New { pool: gen_pool_ref(&mut rng, np) });
+      ops.push(Op::Run { pool: gen_pool_ref(&mut rng, np) });
+      // repeated run under another pool (the "changes between repeated runs" half)
+      if rng.chance(if n_actors == 1 { 600 } else { 200 }) {
+         ops.push(Op::Run { pool: gen_pool_ref(&mut rng, np) });
+      }
+      labels.push(format!("{}/{}/{}", def.name, variant.name(), gname));
+      case.actors.push(Actor { program: def.name.to_string(), variant: variant.name().to_string(), ops });
+   }
+   case.label = labels.join("+");
+   case
+}
+
+pub fn gen_case(check: &str, thorough: bool, seed: u64, index: u64) -> Option<Case> {
+   Some(match check {
       "C02" => gen_single_run("C02", "c02", seed, index, 0),
       "C05" => gen_single_run("C05", "c05", seed, index, 80),
+      "C13" => gen_history(seed, index, thorough),
+      "C20" => gen_tenants(seed, index, thorough),
+      "C14" => return crate::gen14::gen_case(seed, index, thorough),
       other => panic!("no generator for check {}", other),
-   }
+   })
 }
 
 pub fn all_rows(ops: &[Op]) -> Vec<Row> {
    ops.iter().filter_map(|o| if let Op::Push { rows, .. } = o { Some(rows.clone()) } else { None }).flatten().collect()
 }
+
+pub fn gen_push_pub(def: &ProgramDef, rng: &mut Rng, so_far: &[Op]) -> Option<Op> { gen_push(def, rng, so_far, true) }
